@@ -141,6 +141,22 @@ class Queue(ABC):
         """
         return False
 
+    def has_pending_message_for_stage(self, stage_id: str) -> bool:
+        """Check if there's already a pending message that targets a specific stage.
+
+        Used by recovery so that a sweep overlapping normal progress does not
+        start a NOT_STARTED stage for which a decision (StartStage, SkipStage,
+        CancelStage ...) is already queued.
+        Default implementation returns False (no deduplication).
+
+        Args:
+            stage_id: The stage ID to check for
+
+        Returns:
+            True if a pending message exists for this stage
+        """
+        return False
+
     def extend_lock(self, message: Message, duration: timedelta | None = None) -> bool:
         """Extend the visibility lock of an in-flight message (heartbeat).
 
